@@ -22,7 +22,9 @@ META = {
             "convert::from_pos -> pos_for_line_col(line, character). "
             "U6 a converter is handed the line map of the file its ranges refer to: in a handler the map comes from the same from_file / "
             "from_file_pos / file_for_uri result as the file the analysis was asked about; to_location and to_workspace_edit look the map up by the "
-            "file id that accompanies the range.",
+            "file id that accompanies the range. "
+            "U7 (= C13/D1, D2) the store writes a text and its line map together, from one normalisation, and every change of a notification is "
+            "converted with the line map of the text it applies to.",
     "explanation": "Decides the clauses of C14 whose truth is in the shape of the code; each is a necessary condition (breaking it shifts or "
                    "mislabels positions behind a non-ASCII character, on another line, or in another file). That the two scans are inverse to "
                    "each other and strictly monotone for every text is arithmetic over runtime strings and is NOT decided: a slip that keeps "
@@ -817,3 +819,7 @@ def run(F, res, tier):
     lines(F, res)
     positions(F, res)
     same_file(F, res)
+    # the line map a conversion uses is the line map of the text it converts for: stored together with it (C13/D1) and re-read
+    # after every change of one notification (C13/D2)
+    _c13.text_and_line_map_written_together(F, res, rule="U7")
+    _c13.edits_use_the_current_line_map(F, res, rule="U7")
